@@ -109,6 +109,7 @@ let rec parse_ops toks acc =
   | "O" :: sl :: r -> parse_ops r (OSpSortAbs (slot sl) :: acc)
   | "q" :: sl :: n :: r -> parse_ops r (OSpQuery (slot sl, str_of_hex n) :: acc)
   | "T" :: sl :: r -> parse_ops r (OSpTouch (slot sl) :: acc)
+  | "A" :: sl :: r -> parse_ops r (OSpAdopt (slot sl) :: acc)
   | t :: _ -> failwith ("op " ^ t)
 
 let show_res (c : cfg) (r : n list res) : string =
